@@ -309,6 +309,10 @@ func scenDirectedOnce(seed uint64, e *ctxEnv, idx int, which string, scale int, 
 	c.failLoadPct, c.failEndPct, c.failStartPct = 0, 0, 0
 	desc := mkDesc(which, seed)
 	gated := which != "sequential-edits"
+	if which == "watch-during-build" {
+		c.trigger = filepath.Join(filepath.Dir(c.outfile), "trigger.txt")
+		os.WriteFile(c.trigger, []byte("x"), 0o644)
+	}
 	if gated {
 		c.gate = make(chan struct{})
 		c.gateMod = "m0"
@@ -419,6 +423,57 @@ func scenDirectedOnce(seed uint64, e *ctxEnv, idx int, which string, scale int, 
 		reportErrs(oc)
 		if oc.rv.Kind != "build" || oc.rv.Canc || oc.rv.B == oa.rv.B {
 			e.st.Fail("rebuild-after-cancel-not-fresh", desc, rvString(oc.rv), "a new complete build")
+		}
+	case "watch-during-build":
+		// Watch() is called while a Rebuild is still in flight (held in on-load).
+		// The first watch-mode build must run AFTER that build (it is the one that
+		// records the watch data); afterwards an edit made while nothing builds
+		// must be picked up by a watcher-started build that contains the edit.
+		a := hold()
+		ow := c.doCall(ctx, "watch", callTimeout)
+		if !ow.returned || ow.rv.Kind != "unit" {
+			e.st.Fail("watch-failed", desc, rvString(ow.rv), "Watch succeeds on a live context")
+		}
+		settle()
+		release()
+		oa := a.wait()
+		reportErrs(oa)
+		// let the first watch-mode build run
+		deadline := time.Now().Add(3 * time.Second)
+		for time.Now().Before(deadline) {
+			c.mu.Lock()
+			n := len(c.ended)
+			c.mu.Unlock()
+			running, _ := c.buildRunning()
+			if n >= 2 && !running {
+				break
+			}
+			time.Sleep(5 * time.Millisecond)
+		}
+		c.edit()
+		c.mu.Lock()
+		want := c.version
+		c.mu.Unlock()
+		seen := false
+		deadline = time.Now().Add(10 * time.Second)
+		for time.Now().Before(deadline) && !seen {
+			c.mu.Lock()
+			for _, ev := range c.hist {
+				if ev.Kind == "load" && ev.Ver >= want {
+					seen = true
+				}
+			}
+			c.mu.Unlock()
+			if !seen {
+				time.Sleep(10 * time.Millisecond)
+			}
+		}
+		if !seen {
+			desc["scenario"] = "watch-during-build"
+			c.mu.Lock()
+			desc["history_so_far"] = histString(c.hist)
+			c.mu.Unlock()
+			e.st.Fail("watch-mode-missed-an-edit", desc, fmt.Sprintf("Watch() returned nil while a Rebuild was in flight; after that build ended the inputs were edited (version %d) while nothing was building, and no build read the new version within 10s", want), "a watcher-started build that contains the edit (watch_change_is_noticed)")
 		}
 	case "overlapping-cancels":
 		// two or more Cancel calls overlap on one held build: none of them may
@@ -742,12 +797,12 @@ func runContexts(r *Rng, e *ctxEnv, n int, tier string) {
 		}
 	}
 	// fixed corpus first: directed scenarios (including the replays of known findings)
-	for i, w := range []string{"sequential-edits", "join", "cancel", "overlapping-cancels", "overlapping-cancels", "dispose", "cancel-during-dispose", "second-dispose"} {
+	for i, w := range []string{"sequential-edits", "join", "cancel", "overlapping-cancels", "overlapping-cancels", "watch-during-build", "dispose", "cancel-during-dispose", "second-dispose"} {
 		scenDirected(r.U64(), e, 1000+i, w)
 	}
 	extra := n / 20
 	for i := 0; i < extra; i++ {
-		w := []string{"sequential-edits", "join", "cancel", "dispose", "overlapping-cancels"}[r.Intn(5)]
+		w := []string{"sequential-edits", "join", "cancel", "dispose", "overlapping-cancels", "watch-during-build"}[r.Intn(6)]
 		scenDirected(r.U64(), e, 2000+i, w)
 	}
 	for i := 0; i < n; i++ {
